@@ -21,6 +21,7 @@ mod g_socks;
 mod g_hostile;
 mod g_cert;
 mod g_http;
+mod g_sched;
 mod e2e;
 
 use std::io::Write;
@@ -53,6 +54,7 @@ fn group_by_name(name: &str) -> Option<Box<dyn Group>> {
         "hx" => Some(Box::new(g_hostile::HostileGroup)),
         "cert" => Some(Box::new(g_cert::CertGroup)),
         "http" => Some(Box::new(g_http::HttpGroup)),
+        "sched" => Some(Box::new(g_sched::SchedGroup)),
         _ => None,
     }
 }
